@@ -60,6 +60,12 @@ CHECKS["C08"] = dict(
     text="Group casts on spec/CGlueObj.tla: CastIff and SameInstance are checked by TLC; check/as_ref/as_mut/cast/into/upcast for 8 requested sets over a group with 5 optional traits and 6 implementing types (distinct enabled sets) on Box/Mut/Ref containers are replayed on the real macros with verdict, dispatch target and follow-up calls compared; failing cast/into must drop the container exactly once. The exhaustive n<=4 matrix is covered when evidence.cast_matrix reports it.",
     note=_OBJ_NOTE, technique="TLA+ spec + TLC; behaviour replay; trace validation by TLC", design="DESIGN.md §5 C08")
 
+CHECKS["C09"] = dict(
+    text="spec/SendSync.tla states Rust's auto-trait rules for every typed instance handle and the bounds the library actually writes for each opaque conversion; TLC enumerates the complete finite matrix ({instance, Fwd, object, group} x {&T, &mut T, CBox, CSliceBox, CArc, CArcSome} x 4 payload classes x {Send, Sync}) with both predictions. A probe crate built against /repo evaluates the real Send/Sync/Opaquable facts of every cell in one build; the verdict per cell is the property's own predicate on the observed facts (opaque has the marker and the instance handle lacks it); disagreement with the spec's implementation rules is model drift. The 27 violating conversion cells (upstream issue #18) are listed one by one as known findings F4.",
+    note="Trusted: TLC, rustc's trait solver (the executed oracle), the inherent-const probe (self-checked on u64/Rc/Cell). Level: complete enumeration of a finite matrix.",
+    technique="TLA+ rule model enumerated by TLC; compiler-evaluated probe matrix compared per cell",
+    design="DESIGN.md §5 C09, §6 F4")
+
 NOT_YET = {}
 
 def main():
